@@ -17,6 +17,9 @@
 (*  end    what the HAL considers live and what every terminal received;     *)
 (*         (shown, from its Write calls) and HOLDS at the end (held, the     *)
 (*         non-blank cells of the real terminal buffer in row-major order);  *)
+(*         geom / consGeom = character geometry every terminal is attached   *)
+(*         with / every console has at the end (a console with font or logo  *)
+(*         support only gets its geometry when the HAL has configured it);   *)
 (*         sink = id of the terminal that is the log sink, 0 for the early   *)
 (*         ring, -1 for a writer the harness cannot identify (delivery is    *)
 (*         then judged by the log check alone)                               *)
@@ -75,6 +78,38 @@ LogChecks(s, R) ==
                  <<"early log lost although fewer than RingCap bytes were buffered: logged", Len(I), "received", Len(Ri), "buffered at most", dhi>> >>,
         <<"C16", unreported # {}, <<"failed driver not reported on the log", unreported>> >> >>
 
+\* ---- the bring-up log, structurally (independent of the HAL's wording).  A driver's name (a unique ASCII string) gets on
+\* the log only through the HAL's per-driver line prefix, its error text only through the HAL's failure report.
+\*   - a log line names at most one driver, once (a stale or doubled prefix attributes a line to two drivers);
+\*   - a driver's error text stands on a line that names no other driver;
+\*   - what follows the name on the LAST line of a successfully initialised driver (injected bytes removed) is a success
+\*     report; no line of a failed driver may end like that.
+\* All three only forbid, so a log truncated at the front by the ring cannot raise a false alarm.
+Occ(R, pats) ==      \* <<position, index in pats>> of every occurrence of one of the byte strings pats[i] in R
+  LET firsts == {pats[i][1] : i \in {j \in 1..Len(pats) : pats[j] # <<>>}}
+      cand == SelectSeq([i \in 1..Len(R) |-> i], LAMBDA i : R[i] \in firsts)
+  IN {o \in {<<cand[k], d>> : k \in 1..Len(cand), d \in 1..Len(pats)} :
+         pats[o[2]] # <<>> /\ o[1] + Len(pats[o[2]]) - 1 <= Len(R) /\ SubSeq(R, o[1], o[1] + Len(pats[o[2]]) - 1) = pats[o[2]]}
+LogStruct(s, R) ==
+  LET n == Len(s.drv)
+      names == [i \in 1..n |-> s.drv[i].name]
+      msgs == [i \in 1..n |-> s.drv[i].msg]
+      nl == SelectSeq([i \in 1..Len(R) |-> i], LAMBDA i : R[i] = 10)
+      nlset == {nl[i] : i \in 1..Len(nl)}
+      LineOf(p) == Cardinality({q \in nlset : q < p})
+      EndOf(p) == LET later == {q \in nlset : q > p} IN IF later = {} THEN Len(R) ELSE (CHOOSE q \in later : \A r \in later : q <= r) - 1
+      no == Occ(R, names)
+      mo == Occ(R, msgs)
+      Id(i) == s.drv[i].id
+      twice == {o \in no : \E o2 \in no : o2 # o /\ LineOf(o2[1]) = LineOf(o[1])}
+      stray == {m \in mo : \E o \in no : LineOf(o[1]) = LineOf(m[1]) /\ o[2] # m[2]}
+      Sig(o) == SelectSeq(SubSeq(R, o[1] + Len(names[o[2]]), EndOf(o[1])), LAMBDA b : b < 128)
+      okSigs == {Sig(o) : o \in {x \in no : Id(x[2]) \in s.okd /\ \A y \in no : y[2] = x[2] => y[1] <= x[1]}}
+      asOk == {o \in no : Id(o[2]) \in s.failed /\ Sig(o) \in okSigs}
+  IN << <<"C16", twice # {}, <<"a log line is attributed to more than one driver (or twice): positions / drivers", {<<o[1], Id(o[2])>> : o \in twice}>> >>,
+        <<"C16", stray # {}, <<"a failure report stands on a line attributed to another driver", {Id(m[2]) : m \in stray}>> >>,
+        <<"C16", asOk # {}, <<"a driver whose initialisation failed is reported like the successful ones", {Id(o[2]) : o \in asOk}>> >> >>
+
 Lookup(pairs, id, dflt) == LET S == {i \in 1..Len(pairs) : pairs[i].id = id} IN IF S = {} THEN dflt ELSE pairs[CHOOSE i \in S : TRUE].v
 
 Mon(s, e) ==
@@ -119,7 +154,11 @@ Mon(s, e) ==
                   <<"C16", s.linked /\ Inj(Lookup(e.held, s.actTTY, <<>>)) # Inj(R),
                            <<"the active terminal no longer holds the log it received (content discarded after the link): received",
                              Len(Inj(R)), "injected bytes, holds", Len(Inj(Lookup(e.held, s.actTTY, <<>>)))>> >> >>
-                  \o LogChecks(s, R)]
+                  \o LogChecks(s, R) \o LogStruct(s, R)
+                  \o << <<"C16", s.linked /\ (Lookup(e.geom, s.actTTY, <<0, 0>>) # Lookup(e.consGeom, s.actCons, <<-1, -1>>)
+                                             \/ Lookup(e.geom, s.actTTY, <<0, 0>>)[1] = 0 \/ Lookup(e.geom, s.actTTY, <<0, 0>>)[2] = 0),
+                           <<"the terminal is not attached with the console's final character geometry (font / logo configured after the link?): terminal",
+                             Lookup(e.geom, s.actTTY, <<0, 0>>), "console", Lookup(e.consGeom, s.actCons, <<-1, -1>>)>> >> >>]
   ELSE IF e.k = "panic" THEN [s |-> s, cs |-> << <<"C16", TRUE, <<"DetectHardware panicked">> >> >>]
   ELSE [s |-> S0, cs |-> <<>>]          \* scenario / reset
 ====
